@@ -80,14 +80,54 @@ type modSet struct {
 	free   map[int]bool            // free variables (closure) written through
 	fields map[string]map[int]bool // heap key -> field indices (-1 = whole object)
 	heapT  map[string]types.Type
+	bases  map[string]map[int]*baseSet // which objects: unknown (any), given SSA pointer values, objects allocated in the region
 	all    bool // unknown callee: anything
 }
 
-func newModSet() *modSet {
-	return &modSet{allocs: map[*ssa.Alloc]bool{}, free: map[int]bool{}, fields: map[string]map[int]bool{}, heapT: map[string]types.Type{}}
+type baseSet struct {
+	unknown bool
+	vals    []ssa.Value
+	fresh   bool
 }
 
+func newModSet() *modSet {
+	return &modSet{allocs: map[*ssa.Alloc]bool{}, free: map[int]bool{}, fields: map[string]map[int]bool{}, heapT: map[string]types.Type{},
+		bases: map[string]map[int]*baseSet{}}
+}
+
+func (m *modSet) base(k string, f int) *baseSet {
+	if m.bases[k] == nil {
+		m.bases[k] = map[int]*baseSet{}
+	}
+	if m.bases[k][f] == nil {
+		m.bases[k][f] = &baseSet{}
+	}
+	return m.bases[k][f]
+}
+
+// addFieldObj: field f of the object pointed to by SSA value v (or of objects allocated in the region) is written.
+func (m *modSet) addFieldObj(w *World, t types.Type, f int, v ssa.Value, fresh bool) {
+	m.addFieldRaw(w, t, f)
+	k := w.heapKey(t)
+	if mp, ok := types.Unalias(t).Underlying().(*types.Map); ok {
+		k = "HM:" + mangleSort(w.mapValSort(mp))
+	}
+	b := m.base(k, f)
+	if fresh {
+		b.fresh = true
+	} else if v == nil {
+		b.unknown = true
+	} else {
+		b.vals = append(b.vals, v)
+	}
+}
+
+// addField: field f of some object of type t (which one is unknown) is written.
 func (m *modSet) addField(w *World, t types.Type, f int) {
+	m.addFieldObj(w, t, f, nil, false)
+}
+
+func (m *modSet) addFieldRaw(w *World, t types.Type, f int) {
 	k := w.heapKey(t)
 	if mp, ok := types.Unalias(t).Underlying().(*types.Map); ok {
 		k = "HM:" + mangleSort(w.mapValSort(mp))
@@ -99,13 +139,35 @@ func (m *modSet) addField(w *World, t types.Type, f int) {
 	m.heapT[k] = t
 }
 
+// mergeUnknown folds the writes of an inlined callee / closure into m; which objects they hit is not
+// tracked across the call boundary, except that objects allocated there are new.
+func (m *modSet) mergeUnknown(sub *modSet) {
+	for k, fs := range sub.fields {
+		for f := range fs {
+			if m.fields[k] == nil {
+				m.fields[k] = map[int]bool{}
+			}
+			m.fields[k][f] = true
+			m.heapT[k] = sub.heapT[k]
+			sb := sub.base(k, f)
+			b := m.base(k, f)
+			if sb.unknown || len(sb.vals) > 0 {
+				b.unknown = true
+			}
+			if sb.fresh {
+				b.fresh = true
+			}
+		}
+	}
+}
+
 // addrRoot classifies the target of a store.
 func (x *Exec) addrRoot(m *modSet, addr ssa.Value, firstField int) {
 	switch a := addr.(type) {
 	case *ssa.Alloc:
 		m.allocs[a] = true
 		if a.Heap && !x.cellLike(a) {
-			m.addField(x.w, a.Type().(*types.Pointer).Elem(), firstField)
+			m.addFieldObj(x.w, a.Type().(*types.Pointer).Elem(), firstField, a, false)
 		}
 	case *ssa.FreeVar:
 		for i, fv := range a.Parent().FreeVars {
@@ -123,7 +185,7 @@ func (x *Exec) addrRoot(m *modSet, addr ssa.Value, firstField int) {
 			}
 		default:
 			pt := types.Unalias(a.X.Type()).Underlying().(*types.Pointer)
-			m.addField(x.w, pt.Elem(), a.Field)
+			m.addFieldObj(x.w, pt.Elem(), a.Field, a.X, false)
 		}
 	case *ssa.IndexAddr:
 		switch a.X.(type) {
@@ -162,10 +224,10 @@ func (x *Exec) modsOfBlocks(fn *ssa.Function, blocks map[*ssa.BasicBlock]bool, s
 				m.addField(x.w, i.Map.Type(), -1)
 			case *ssa.Alloc:
 				if i.Heap && !x.cellLike(i) {
-					m.addField(x.w, i.Type().(*types.Pointer).Elem(), -1)
+					m.addFieldObj(x.w, i.Type().(*types.Pointer).Elem(), -1, nil, true)
 				}
 			case *ssa.MakeMap:
-				m.addField(x.w, i.Type(), -1)
+				m.addFieldObj(x.w, i.Type(), -1, nil, true)
 			case ssa.CallInstruction:
 				x.modsOfCall(m, fn, i, seen)
 			}
@@ -270,15 +332,7 @@ func (x *Exec) modsOfStatic(m *modSet, callee *ssa.Function, ci ssa.CallInstruct
 	seen[callee] = true
 	sub := x.modsOfBlocks(callee, nil, seen)
 	m.all = m.all || sub.all
-	for k, fs := range sub.fields {
-		for f := range fs {
-			if m.fields[k] == nil {
-				m.fields[k] = map[int]bool{}
-			}
-			m.fields[k][f] = true
-			m.heapT[k] = sub.heapT[k]
-		}
-	}
+	m.mergeUnknown(sub)
 }
 
 func (x *Exec) modsOfClosure(m *modSet, parent *ssa.Function, mc *ssa.MakeClosure, seen map[*ssa.Function]bool) {
@@ -289,15 +343,7 @@ func (x *Exec) modsOfClosure(m *modSet, parent *ssa.Function, mc *ssa.MakeClosur
 	seen[cf] = true
 	sub := x.modsOfBlocks(cf, nil, seen)
 	m.all = m.all || sub.all
-	for k, fs := range sub.fields {
-		for f := range fs {
-			if m.fields[k] == nil {
-				m.fields[k] = map[int]bool{}
-			}
-			m.fields[k][f] = true
-			m.heapT[k] = sub.heapT[k]
-		}
-	}
+	m.mergeUnknown(sub)
 	for fi := range sub.free {
 		x.addrRoot(m, mc.Bindings[fi], -1)
 	}
@@ -334,23 +380,39 @@ func (x *Exec) modsOfSpec(m *modSet, spec *FuncSpec, key string, ci ssa.CallInst
 			if id, ok := u.X.(*SIdent); ok && ci != nil {
 				if at := x.actualArgType(spec, id.Name, ci); at != nil {
 					if pt, ok := types.Unalias(at).Underlying().(*types.Pointer); ok {
-						m.addField(x.w, pt.Elem(), -1)
+						m.addFieldObj(x.w, pt.Elem(), -1, x.actualArgVal(spec, id.Name, ci), false)
 						continue
 					}
 				}
 			}
 		}
 		// assigns x.f : resolve the static type of x from the spec parameter types
-		if !x.modsOfAssignExpr(m, spec, a.Expr) {
+		if !x.modsOfAssignExpr(m, spec, a.Expr, ci) {
 			m.all = true
+		}
+	}
+	// freshly allocated results: new objects of the result's pointee type
+	if ci != nil && len(spec.Fresh) > 0 && ci.Value() != nil {
+		rt := ci.Value().Type()
+		if tup, ok := rt.(*types.Tuple); ok && tup.Len() > 0 {
+			rt = tup.At(0).Type()
+		}
+		if pt, ok := types.Unalias(rt).Underlying().(*types.Pointer); ok {
+			if _, isS := types.Unalias(pt.Elem()).Underlying().(*types.Struct); isS {
+				m.addFieldObj(x.w, pt.Elem(), -1, nil, true)
+			}
 		}
 	}
 }
 
-func (x *Exec) modsOfAssignExpr(m *modSet, spec *FuncSpec, e SExpr) bool {
+func (x *Exec) modsOfAssignExpr(m *modSet, spec *FuncSpec, e SExpr, ci ssa.CallInstruction) bool {
 	sel, ok := e.(*SSelect)
 	if !ok {
 		return false
+	}
+	var baseVal ssa.Value
+	if id, isID := sel.X.(*SIdent); isID && ci != nil {
+		baseVal = x.actualArgVal(spec, id.Name, ci)
 	}
 	t := x.staticSpecType(spec, sel.X)
 	if t == nil {
@@ -361,11 +423,40 @@ func (x *Exec) modsOfAssignExpr(m *modSet, spec *FuncSpec, e SExpr) bool {
 	}
 	for i, f := range x.w.StructFields(t) {
 		if f.Name == sel.Sel {
-			m.addField(x.w, t, i)
+			m.addFieldObj(x.w, t, i, baseVal, false)
 			return true
 		}
 	}
 	return false
+}
+
+// actualArgVal: the SSA value bound to spec parameter `name` at call ci (looking through interface boxing).
+func (x *Exec) actualArgVal(spec *FuncSpec, name string, ci ssa.CallInstruction) ssa.Value {
+	c := ci.Common()
+	var actual []ssa.Value
+	if c.IsInvoke() {
+		actual = append(actual, c.Value)
+	}
+	actual = append(actual, c.Args...)
+	pick := func(v ssa.Value) ssa.Value {
+		if mi, ok := v.(*ssa.MakeInterface); ok {
+			return mi.X
+		}
+		return v
+	}
+	k := 0
+	if spec.Recv != nil {
+		if spec.Recv.Name == name && len(actual) > 0 {
+			return pick(actual[0])
+		}
+		k = 1
+	}
+	for i, p := range spec.Params {
+		if p.Name == name && k+i < len(actual) {
+			return pick(actual[k+i])
+		}
+	}
+	return nil
 }
 
 func (x *Exec) staticSpecType(spec *FuncSpec, e SExpr) types.Type {
@@ -406,7 +497,8 @@ func (x *Exec) staticSpecType(spec *FuncSpec, e SExpr) types.Type {
 }
 
 // havocMods forgets everything in m (cells of the current frame, heap fields).
-func (x *Exec) havocMods(s *State, fr *Frame, m *modSet, keep map[*ssa.Alloc]bool) {
+func (x *Exec) havocMods(s *State, fr *Frame, m *modSet, blocks map[*ssa.BasicBlock]bool) {
+	var keep map[*ssa.Alloc]bool
 	if m.all {
 		x.havocAllHeap(s)
 	}
@@ -427,28 +519,123 @@ func (x *Exec) havocMods(s *State, fr *Frame, m *modSet, keep map[*ssa.Alloc]boo
 	if m.all {
 		return
 	}
+	w0 := s.watermark()
 	for k, fs := range m.fields {
 		t := m.heapT[k]
-		_, cur := x.heapMap(s, t)
-		nh := x.w.Reg.Fresh(k+"@loop", cur.Sort)
-		if !fs[-1] {
-			// frame: unmodified fields keep their values
-			if _, ok := types.Unalias(t).Underlying().(*types.Struct); ok {
-				r := Var("r", SInt)
-				var keepEqs []*Term
-				for i, f := range x.w.StructFields(t) {
-					if !fs[i] {
-						keepEqs = append(keepEqs, Eq(x.w.Reg.Apply(f.Sel, Select(nh, r)), x.w.Reg.Apply(f.Sel, Select(cur, r))))
+		if x.isStructPointee(t) {
+			for i, f := range x.w.StructFields(t) {
+				if fs[-1] || fs[i] {
+					var bs []*baseSet
+					if fs[-1] {
+						bs = append(bs, m.base(k, -1))
 					}
+					if fs[i] {
+						bs = append(bs, m.base(k, i))
+					}
+					key := x.fieldKey(t, i)
+					cur := x.heapArr(s, key, x.w.SortOf(f.Type))
+					s.heap[key] = x.havocArray(s, fr, key, cur, bs, m, blocks, w0)
 				}
-				if len(keepEqs) > 0 {
-					s.assume(Forall([]*Term{r}, And(keepEqs...), []*Term{Select(nh, r)}))
+			}
+			continue
+		}
+		key := x.cellKey(t)
+		cur := x.heapArr(s, key, x.w.heapElemSort(t))
+		s.heap[key] = x.havocArray(s, fr, key, cur, []*baseSet{m.base(k, -1)}, m, blocks, w0)
+	}
+}
+
+// havocArray forgets a heap array at the objects a region may write: given pointers that are invariant in
+// the region, and objects allocated by the region (reference above the watermark w0). If some write goes to
+// an unknown object the whole array is forgotten.
+func (x *Exec) havocArray(s *State, fr *Frame, key string, cur *Term, bs []*baseSet, m *modSet, blocks map[*ssa.BasicBlock]bool, w0 *Term) *Term {
+	fresh := x.w.Reg.Fresh(key+"@loop", cur.Sort)
+	var refs []*Term
+	for _, b := range bs {
+		if b.unknown {
+			return fresh
+		}
+		for _, v := range b.vals {
+			t, kind := x.classifyBase(s, fr, v, m, blocks)
+			switch kind {
+			case "known":
+				refs = append(refs, t)
+			case "fresh":
+			default:
+				return fresh
+			}
+		}
+	}
+	nv := x.w.Reg.Fresh(key+"@hv", cur.Sort)
+	r := Var("r", SInt)
+	var cond []*Term
+	cond = append(cond, Gt(r, w0))
+	for _, t := range refs {
+		cond = append(cond, Eq(r, t))
+	}
+	s.assume(Forall([]*Term{r}, Eq(Select(nv, r), Ite(Or(cond...), Select(fresh, r), Select(cur, r))), []*Term{Select(nv, r)}))
+	hvTab[nv.Name] = &hvInfo{old: cur, fresh: fresh, refs: refs, w0: w0}
+	return nv
+}
+
+// classifyBase: is the pointer SSA value v invariant in the region (its value is then known now), an object
+// allocated by the region, or something else?
+func (x *Exec) classifyBase(s *State, fr *Frame, v ssa.Value, m *modSet, blocks map[*ssa.BasicBlock]bool) (*Term, string) {
+	in, isInstr := v.(ssa.Instruction)
+	inRegion := isInstr && blocks != nil && blocks[in.Block()] && in.Parent() == fr.fn
+	if !inRegion {
+		if isInstr && in.Parent() != fr.fn {
+			return nil, "unknown"
+		}
+		if val, ok := fr.vals[v]; ok && val.Term != nil {
+			return val.Term, "known"
+		}
+		if p, ok := v.(*ssa.Parameter); ok {
+			for i, fp := range fr.fn.Params {
+				if fp == p && fr.params[i].Term != nil {
+					return fr.params[i].Term, "known"
 				}
 			}
 		}
-		// objects that did not exist before the loop... are unconstrained (sound)
-		s.heap[k] = nh
+		return nil, "unknown"
 	}
+	switch i := v.(type) {
+	case *ssa.UnOp:
+		if al, ok := i.X.(*ssa.Alloc); ok && i.Op == token.MUL && !m.allocs[al] {
+			if c, ok := fr.cells[al]; ok {
+				if cv := s.cellVal[c]; cv.Term != nil {
+					return cv.Term, "known"
+				}
+			}
+		}
+		// a local that the region assigns: fine if everything it is assigned (in the region) is a new object
+		// and the local itself is declared in the region (so it holds nothing older)
+		if al, ok := i.X.(*ssa.Alloc); ok && i.Op == token.MUL && m.allocs[al] && blocks[al.Block()] && al.Referrers() != nil {
+			allFresh, n := true, 0
+			for _, r := range *al.Referrers() {
+				if st, ok := r.(*ssa.Store); ok && st.Addr == al {
+					n++
+					if _, k := x.classifyBase(s, fr, st.Val, m, blocks); k != "fresh" {
+						allFresh = false
+					}
+				}
+			}
+			if allFresh && n > 0 {
+				return nil, "fresh"
+			}
+		}
+	case *ssa.Alloc:
+		return nil, "fresh"
+	case *ssa.MakeMap:
+		return nil, "fresh"
+	case *ssa.Call:
+		if callee := i.Call.StaticCallee(); callee != nil {
+			if sp := x.w.FuncSpecs[fnKey(callee)]; sp != nil && len(sp.Fresh) > 0 && sp.Fresh[0].When == nil {
+				return nil, "fresh"
+			}
+		}
+	}
+	return nil, "unknown"
 }
 
 // enterLoopHeader is called when control reaches a loop header. Returns false if the path ends here.
@@ -514,7 +701,8 @@ func (x *Exec) enterLoopHeader(s *State, fr *Frame, lp *loop, from *ssa.BasicBlo
 	evalInv("inv.init")
 	fr.cut[lp.header] = true
 	m := x.modsOfBlocks(fr.fn, lp.body, map[*ssa.Function]bool{})
-	x.havocMods(s, fr, m, nil)
+	x.havocMods(s, fr, m, lp.body)
+	x.rebaseAlloc(s)
 	// assume invariants
 	ctx := x.loopCtx(s, fr, lp)
 	if lp.rangeIdx != nil && lp.rangeLen != nil {
